@@ -99,7 +99,7 @@ def parseSimple (nContours : Nat) : P (List Pt) := do
     ys := ys.push cur
   return (List.range nPts).map fun i => { x := xs[i]!, y := ys[i]! }
 
-/-- Points of glyph `g` (composites expanded with their x/y offsets, x/y scales and 2x2 transforms). -/
+/-- Points of glyph `g` (composites expanded with their x/y offsets or matched points, x/y scales and 2x2 transforms). -/
 partial def glyphPoints (glyf loca : ByteArray) (longLoca : Bool) (g : Nat) (depth : Nat := 0) : Option (List Pt) :=
   if depth > 8 then none else
   let off (i : Nat) : Nat := if longLoca then beU32 loca (4 * i) else 2 * beU16 loca (2 * i)
@@ -128,7 +128,6 @@ partial def glyphPoints (glyf loca : ByteArray) (longLoca : Bool) (g : Nat) (dep
         else
           let s (v : Nat) : Int := if v ≥ 128 then (v : Int) - 256 else v
           (s (glyf.get! (p + 4)).toNat, s (glyf.get! (p + 5)).toNat, p + 6)
-      if !xy then none else
       let f2 (q : Nat) : Int := let v := beU16 glyf q; if v ≥ 32768 then (v : Int) - 65536 else v
       -- the transform in F2Dot14 units, as the format defines it: x' = xscale*x + scale10*y, y' = scale01*x + yscale*y
       -- (WE_HAVE_A_TWO_BY_TWO stores xscale, scale01, scale10, yscale in this order); the offset is not transformed
@@ -143,8 +142,23 @@ partial def glyphPoints (glyf loca : ByteArray) (longLoca : Bool) (g : Nat) (dep
       | some pts =>
         -- a transformed coordinate is cut to an integer toward zero, as `(int)(x * flt11 + y * flt21)` does
         let tr (v s w t : Int) : Int := if s == 16384 ∧ t == 0 then v else Int.tdiv (v * s + w * t) 16384
-        let acc' := acc ++ pts.map fun q => { x := tr q.x sx q.y s10 + dx, y := tr q.y sy q.x s01 + dy }
-        if flags / 32 % 2 == 1 then comps p'' acc' (fuel - 1) else some acc'
+        let tpts : List Pt := pts.map fun q => { x := tr q.x sx q.y s10, y := tr q.y sy q.x s01 }
+        -- placement: x/y offsets (ARGS_ARE_XY_VALUES), or point matching - the two arguments are unsigned point numbers,
+        -- the first among the points of the composite collected so far, the second among the (transformed) points of
+        -- this component, and the component is moved so that the two points coincide
+        let place : Option (Int × Int) :=
+          if xy then some (dx, dy)
+          else
+            let ua : Nat := if words then beU16 glyf (p + 4) else (glyf.get! (p + 4)).toNat
+            let ub : Nat := if words then beU16 glyf (p + 6) else (glyf.get! (p + 5)).toNat
+            match acc[ua]?, tpts[ub]? with
+            | some pa, some pb => some (pa.x - pb.x, pa.y - pb.y)
+            | _, _ => none
+        match place with
+        | none => none
+        | some (ox, oy) =>
+          let acc' := acc ++ tpts.map fun q => { x := q.x + ox, y := q.y + oy }
+          if flags / 32 % 2 == 1 then comps p'' acc' (fuel - 1) else some acc'
     comps (a + 10) [] 64
 
 /-- Component glyph ids of a composite glyph (empty for simple glyphs). -/
